@@ -147,13 +147,26 @@ var vC15Progs = []struct {
 	{"d20min5 + d20 + d6max3", "", 7, 43},
 }
 
-//vh:prop=C15 tiers=quick,thorough sigkeys=prog solver=z3-new/int summaries=Roll:roll-contract unwind=24 unwind_ok=1 budget_s=1200 bounds="19 programs whose value is monotone in its dice (sums and products with non-negative constants of XdY with keep/min modifiers, Fate, nested dice counts), with the dice at top level, inside functions (also nested and called from computed values), computed values, a loop, a conditional and the default-sides expression: the min-mode and max-mode runs consume no generator output, leave the generator state unchanged and give the expected attained bounds; the random-mode value (dice = Roll-contract symbols) lies between them"
+//vh:prop=C15 tiers=quick,thorough sigkeys=prog,parse-once solver=z3-new/int summaries=Roll:roll-contract unwind=24 unwind_ok=1 budget_s=1200 bounds="19 programs whose value is monotone in its dice (sums and products with non-negative constants of XdY with keep/min modifiers, Fate, nested dice counts), with the dice at top level, inside functions (also nested and called from computed values), computed values, a loop, a conditional and the default-sides expression: the min-mode and max-mode runs consume no generator output, leave the generator state unchanged and give the expected attained bounds; the random-mode value (dice = Roll-contract symbols) lies between them"
 func VH_C15_vm() {
 	k := vChoice("prog", len(vC15Progs))
 	pr := vC15Progs[k]
+	// the mode is set before Run, or (parse-once) after Parse and before RunAfterParsed
+	parseOnce := vChoice("parse-once", 2) == 1
 	run := func(mode int) (*Context, error) {
 		vm := vSeededVM()
 		vm.Config.DefaultDiceSideExpr = pr.defSides
+		if parseOnce {
+			// parsed under the opposite mode, evaluated under the wanted one
+			vm.Config.DiceMinMode = mode > 0
+			vm.Config.DiceMaxMode = mode <= 0
+			if err := vm.Parse(pr.src); err != nil {
+				return vm, err
+			}
+			vm.Config.DiceMinMode = mode < 0
+			vm.Config.DiceMaxMode = mode > 0
+			return vm, vm.RunAfterParsed()
+		}
 		vm.Config.DiceMinMode = mode < 0
 		vm.Config.DiceMaxMode = mode > 0
 		err := vm.Run(pr.src)
